@@ -115,164 +115,260 @@ def coq_list(xs):
     return "[" + "; ".join(xs) + "]"
 
 
+def literal_str_seqs(fnode, module_tree=None):
+    """all literal collections of string constants bound or iterated inside a function (and module-level
+    constants the function refers to), in source order"""
+    out = []
+    nodes = list(ast.walk(fnode))
+    if module_tree is not None:
+        used = {n.id for n in nodes if isinstance(n, ast.Name)}
+        for node in module_tree.body:
+            if isinstance(node, ast.Assign) and len(node.targets) == 1 and isinstance(node.targets[0], ast.Name) \
+                    and node.targets[0].id in used:
+                nodes.append(node.value)
+    for n in nodes:
+        try:
+            out.append(str_collection(n, "literal"))
+        except Fail:
+            pass
+    return out
+
+
 def emit():
+    """returns (text of Generated.v, {missing identifier: reason}).  Every group of definitions is produced
+    independently: a group that cannot be read is left out (its identifiers become unknown to Coq, so exactly the
+    developments that use them stop compiling) and reported."""
+    import importlib
+    import attr
+    sys.path.insert(0, REPO)
     L = []
     w = L.append
+    missing = {}
     w("(* GENERATED by tools/gen_tables.py from /repo's working tree on every run.  Do not edit. *)")
     w("From Coq Require Import List NArith ZArith.")
     w("Import ListNotations.")
     w("")
+
+    def group(idents, fn):
+        lines = []
+        try:
+            fn(lines.append)
+        except Fail as e:
+            for i in idents:
+                missing[i] = str(e)
+            w("(* NOT GENERATED: " + ", ".join(idents) + " - " + str(e).replace("*)", "* )") + " *)")
+            return
+        except Exception as e:  # fail closed on anything unexpected, but only for this group
+            for i in idents:
+                missing[i] = "unexpected: " + repr(e)
+            w("(* NOT GENERATED: " + ", ".join(idents) + " - unexpected " + repr(e).replace("*)", "* )") + " *)")
+            return
+        L.extend(lines)
+
+    def mod(name):
+        try:
+            return importlib.import_module(name)
+        except Exception as e:
+            raise Fail(f"cannot import {name}: {e!r}")
+
+    def str_list_value(v, what):
+        if isinstance(v, (set, frozenset)):
+            v = sorted(v)
+        if not isinstance(v, (list, tuple)) or not all(isinstance(x, str) for x in v):
+            raise Fail(f"{what} is not a collection of str")
+        return list(v)
+
+    def int_value(v, what):
+        if not isinstance(v, int) or isinstance(v, bool):
+            raise Fail(f"{what} is not an int")
+        return v
+
+    def str_enum(cls, what):
+        import enum
+        if not (isinstance(cls, type) and issubclass(cls, enum.Enum)):
+            raise Fail(f"{what} is not an Enum")
+        return [(m.name, m.value) for m in cls]
+
     # ---- hashutil.py
-    t = parse("swh/model/hashutil.py")
-    w("(* swh/model/hashutil.py *)")
-    w(f"Definition HASH_BLOCK_SIZE : N := {int_const(top_assign(t, 'HASH_BLOCK_SIZE'), 'HASH_BLOCK_SIZE')}%N.")
-    algos = sorted(str_collection(top_assign(t, "ALGORITHMS"), "ALGORITHMS"))
-    dflt = sorted(str_collection(top_assign(t, "DEFAULT_ALGORITHMS"), "DEFAULT_ALGORITHMS"))
-    w("Definition ALGORITHMS : list (list N) := " + coq_list(coq_bytes(a) for a in algos) + ".  (* " + " ".join(algos) + " *)")
-    w("Definition DEFAULT_ALGORITHMS : list (list N) := " + coq_list(coq_bytes(a) for a in dflt) + ".  (* " + " ".join(dflt) + " *)")
-    f = find_func(t, "git_object_header")
-    types = None
-    for st in f.body:
-        if isinstance(st, ast.Assign) and isinstance(st.targets[0], ast.Name) and st.targets[0].id == "git_object_types":
-            types = sorted(str_collection(st.value, "git_object_types"))
-    if types is None:
-        raise Fail("git_object_types not found in git_object_header")
-    w("Definition GIT_OBJECT_TYPES : list (list N) := " + coq_list(coq_bytes(a) for a in types) + ".  (* " + " ".join(types) + " *)")
-    w("")
+    def g_hashutil(w):
+        h = mod("swh.model.hashutil")
+        w("(* swh/model/hashutil.py *)")
+        w(f"Definition HASH_BLOCK_SIZE : N := {int_value(h.HASH_BLOCK_SIZE, 'HASH_BLOCK_SIZE')}%N.")
+        algos = sorted(str_list_value(h.ALGORITHMS, "ALGORITHMS"))
+        dflt = sorted(str_list_value(h.DEFAULT_ALGORITHMS, "DEFAULT_ALGORITHMS"))
+        w("Definition ALGORITHMS : list (list N) := " + coq_list(coq_bytes(a) for a in algos) + ".  (* " + " ".join(algos) + " *)")
+        w("Definition DEFAULT_ALGORITHMS : list (list N) := " + coq_list(coq_bytes(a) for a in dflt) + ".  (* " + " ".join(dflt) + " *)")
+    group(["HASH_BLOCK_SIZE", "ALGORITHMS", "DEFAULT_ALGORITHMS"], g_hashutil)
+
+    def g_git_types(w):
+        t = parse("swh/model/hashutil.py")
+        f = find_func(t, "git_object_header")
+        types = None
+        for v in literal_str_seqs(f, t):
+            if "blob" in v and "tree" in v:
+                types = sorted(v)
+        if types is None:
+            raise Fail("the set of git object types accepted by git_object_header was not found")
+        # cross-check behaviourally: exactly these are accepted
+        h = mod("swh.model.hashutil")
+        for ty in types + ["no-such-type"]:
+            try:
+                h.git_object_header(ty, 0)
+                ok = True
+            except ValueError:
+                ok = False
+            if ok != (ty in types):
+                raise Fail(f"git_object_header({ty!r}) acceptance disagrees with the literal set")
+        w("Definition GIT_OBJECT_TYPES : list (list N) := " + coq_list(coq_bytes(a) for a in types) + ".  (* " + " ".join(types) + " *)")
+        w("")
+    group(["GIT_OBJECT_TYPES"], g_git_types)
+
     # ---- from_disk.py
-    t = parse("swh/model/from_disk.py")
-    w("(* swh/model/from_disk.py: DentryPerms *)")
-    perms = enum_members(t, "DentryPerms", int_const)
-    for name, v in perms:
-        w(f"Definition PERMS_{name} : N := {v}%N.")
-    w("Definition DENTRY_PERMS : list N := " + coq_list(f"PERMS_{n}" for n, _ in perms) + ".")
-    w("")
-    # ---- git_objects.py
-    t = parse("swh/model/git_objects.py")
-    w("(* swh/model/git_objects.py: target_type_to_git *)")
-    f = find_func(t, "target_type_to_git")
-    ret = [st for st in f.body if isinstance(st, ast.Return)]
-    if len(ret) != 1 or not isinstance(ret[0].value, ast.Subscript) or not isinstance(ret[0].value.value, ast.Dict):
-        raise Fail("target_type_to_git: unexpected shape")
-    d = ret[0].value.value
-    pairs = []
-    for k, v in zip(d.keys, d.values):
-        if not (isinstance(k, ast.Attribute) and isinstance(k.value, ast.Attribute) and k.value.attr == "ReleaseTargetType"):
-            raise Fail("target_type_to_git: key shape")
-        pairs.append((k.attr, bytes_const(v, "target_type_to_git value")))
-    # the enum values (strings used in dicts) come from model.py
-    tm = parse("swh/model/model.py")
-    rtt = dict(enum_members(tm, "ReleaseTargetType", str_const))
-    w("Definition RELEASE_TARGET_TO_GIT : list (list N * list N) := " + coq_list(
-        f"({coq_bytes(rtt[k.upper()] if k.upper() in rtt else rtt[k])}, {coq_bytes(v)})" for k, v in pairs) +
-      ".  (* " + " ".join(f"{k}->{v.decode()}" for k, v in pairs) + " *)")
-    mat = enum_members(tm, "MetadataAuthorityType", str_const)
-    w("Definition METADATA_AUTHORITY_TYPES : list (list N) := " + coq_list(coq_bytes(v) for _, v in mat) + ".  (* " + " ".join(v for _, v in mat) + " *)")
-    stt = enum_members(tm, "SnapshotTargetType", str_const)
-    w("Definition SNAPSHOT_TARGET_TYPES : list (list N) := " + coq_list(coq_bytes(v) for _, v in stt) + ".  (* " + " ".join(v for _, v in stt) + " *)")
-    # metadata context keys, in manifest order (the tuple literal iterated in raw_extrinsic_metadata_git_object)
-    f = find_func(t, "raw_extrinsic_metadata_git_object")
-    keys = None
-    for st in ast.walk(f):
-        if isinstance(st, ast.For) and isinstance(st.iter, ast.Tuple) and isinstance(st.target, ast.Name) and st.target.id == "key":
-            keys = str_collection(st.iter, "emd context keys")
-    if keys is None:
-        raise Fail("emd context key tuple not found")
-    w("Definition EMD_CONTEXT_KEYS : list (list N) := " + coq_list(coq_bytes(k) for k in keys) + ".  (* " + " ".join(keys) + " *)")
-    w("")
+    def g_perms(w):
+        fd = mod("swh.model.from_disk")
+        w("(* swh/model/from_disk.py: DentryPerms *)")
+        import enum
+        if not issubclass(fd.DentryPerms, enum.IntEnum):
+            raise Fail("DentryPerms is not an IntEnum")
+        perms = [(m.name, int(m.value)) for m in fd.DentryPerms]
+        for name, v in perms:
+            w(f"Definition PERMS_{name} : N := {v}%N.")
+        w("Definition DENTRY_PERMS : list N := " + coq_list(f"PERMS_{n}" for n, _ in perms) + ".")
+        w("")
+    group(["PERMS_content", "PERMS_executable_content", "PERMS_symlink", "PERMS_directory", "PERMS_revision", "DENTRY_PERMS"], g_perms)
+
+    # ---- git_objects.py / model.py enums
+    def g_release_map(w):
+        go = mod("swh.model.git_objects")
+        m = mod("swh.model.model")
+        w("(* swh/model/git_objects.py: target_type_to_git (evaluated on every ReleaseTargetType member) *)")
+        pairs = []
+        for name, value in str_enum(m.ReleaseTargetType, "ReleaseTargetType"):
+            g = go.target_type_to_git(m.ReleaseTargetType(value))
+            if not isinstance(g, bytes):
+                raise Fail("target_type_to_git does not return bytes")
+            pairs.append((value, g))
+        w("Definition RELEASE_TARGET_TO_GIT : list (list N * list N) := " + coq_list(
+            f"({coq_bytes(k)}, {coq_bytes(v)})" for k, v in pairs) + ".  (* " + " ".join(f"{k}->{v.decode()}" for k, v in pairs) + " *)")
+    group(["RELEASE_TARGET_TO_GIT"], g_release_map)
+
+    def g_auth(w):
+        m = mod("swh.model.model")
+        mat = str_enum(m.MetadataAuthorityType, "MetadataAuthorityType")
+        w("Definition METADATA_AUTHORITY_TYPES : list (list N) := " + coq_list(coq_bytes(v) for _, v in mat) + ".  (* " + " ".join(v for _, v in mat) + " *)")
+    group(["METADATA_AUTHORITY_TYPES"], g_auth)
+
+    def g_snap(w):
+        m = mod("swh.model.model")
+        stt = str_enum(m.SnapshotTargetType, "SnapshotTargetType")
+        w("Definition SNAPSHOT_TARGET_TYPES : list (list N) := " + coq_list(coq_bytes(v) for _, v in stt) + ".  (* " + " ".join(v for _, v in stt) + " *)")
+    group(["SNAPSHOT_TARGET_TYPES"], g_snap)
+
+    def g_revtypes(w):
+        m = mod("swh.model.model")
+        rt = str_enum(m.RevisionType, "RevisionType")
+        w("Definition REVISION_TYPES : list (list N * list N) := " + coq_list(f"({coq_bytes(n)}, {coq_bytes(v)})" for n, v in rt) + ".  (* " + " ".join(v for _, v in rt) + " *)")
+    group(["REVISION_TYPES"], g_revtypes)
+
+    def g_emd_keys(w):
+        t = parse("swh/model/git_objects.py")
+        f = find_func(t, "raw_extrinsic_metadata_git_object")
+        keys = None
+        for v in literal_str_seqs(f, t):
+            if "origin" in v and "visit" in v and "path" in v:
+                keys = v
+        if keys is None:
+            raise Fail("the ordered tuple of metadata context keys was not found in raw_extrinsic_metadata_git_object")
+        w("Definition EMD_CONTEXT_KEYS : list (list N) := " + coq_list(coq_bytes(k) for k in keys) + ".  (* " + " ".join(keys) + " *)")
+        w("")
+    group(["EMD_CONTEXT_KEYS"], g_emd_keys)
+
     # ---- model.py: Timestamp bounds
-    w("(* swh/model/model.py: Timestamp bounds *)")
-    ts = None
-    for node in tm.body:
-        if isinstance(node, ast.ClassDef) and node.name == "Timestamp":
-            ts = node
-    if ts is None:
-        raise Fail("class Timestamp not found")
-    bounds = {}
-    for st in ts.body:
-        if isinstance(st, ast.Assign) and isinstance(st.targets[0], ast.Name) and st.targets[0].id in (
-                "MIN_SECONDS", "MAX_SECONDS", "MIN_MICROSECONDS", "MAX_MICROSECONDS"):
-            v = st.value
-            # allowed shapes: integer literal, a ** b - c, or datetime(...).timestamp() evaluated below
-            bounds[st.targets[0].id] = v
-    import importlib
-    sys.path.insert(0, REPO)
-    model = importlib.import_module("swh.model.model")
-    for k in ("MIN_SECONDS", "MAX_SECONDS", "MIN_MICROSECONDS", "MAX_MICROSECONDS"):
-        if k not in bounds:
-            raise Fail(f"Timestamp.{k} not assigned in class body")
-        val = getattr(model.Timestamp, k)
-        if not isinstance(val, int) or isinstance(val, bool):
-            raise Fail(f"Timestamp.{k} is not an int")
-        w(f"Definition TS_{k} : Z := ({val})%Z.")
-    w("")
+    def g_ts(w):
+        m = mod("swh.model.model")
+        w("(* swh/model/model.py: Timestamp bounds *)")
+        for k in ("MIN_SECONDS", "MAX_SECONDS", "MIN_MICROSECONDS", "MAX_MICROSECONDS"):
+            if not hasattr(m.Timestamp, k):
+                raise Fail(f"Timestamp.{k} does not exist")
+            w(f"Definition TS_{k} : Z := ({int_value(getattr(m.Timestamp, k), 'Timestamp.' + k)})%Z.")
+        w("")
+    group(["TS_MIN_SECONDS", "TS_MAX_SECONDS", "TS_MIN_MICROSECONDS", "TS_MAX_MICROSECONDS"], g_ts)
+
     # ---- swhids.py
-    t = parse("swh/model/swhids.py")
-    w("(* swh/model/swhids.py *)")
-    w(f"Definition SWHID_NAMESPACE : list N := {coq_bytes(str_const(top_assign(t, 'SWHID_NAMESPACE'), 'SWHID_NAMESPACE'))}.")
-    w(f"Definition SWHID_VERSION : Z := {int_const(top_assign(t, 'SWHID_VERSION'), 'SWHID_VERSION')}%Z.")
-    types = str_collection(top_assign(t, "SWHID_TYPES"), "SWHID_TYPES")
-    w("Definition SWHID_TYPES : list (list N) := " + coq_list(coq_bytes(a) for a in types) + ".  (* " + " ".join(types) + " *)")
-    ext = top_assign(t, "EXTENDED_SWHID_TYPES")
-    if not (isinstance(ext, ast.BinOp) and isinstance(ext.op, ast.Add) and isinstance(ext.left, ast.Name) and ext.left.id == "SWHID_TYPES"):
-        raise Fail("EXTENDED_SWHID_TYPES: unexpected shape")
-    ext_types = types + str_collection(ext.right, "EXTENDED_SWHID_TYPES")
-    w("Definition EXTENDED_SWHID_TYPES : list (list N) := " + coq_list(coq_bytes(a) for a in ext_types) + ".  (* " + " ".join(ext_types) + " *)")
-    w(f"Definition SWHID_SEP : list N := {coq_bytes(str_const(top_assign(t, 'SWHID_SEP'), 'SWHID_SEP'))}.")
-    w(f"Definition SWHID_CTXT_SEP : list N := {coq_bytes(str_const(top_assign(t, 'SWHID_CTXT_SEP'), 'SWHID_CTXT_SEP'))}.")
-    quals = sorted(str_collection(top_assign(t, "SWHID_QUALIFIERS"), "SWHID_QUALIFIERS"))
-    w("Definition SWHID_QUALIFIERS : list (list N) := " + coq_list(coq_bytes(a) for a in quals) + ".  (* " + " ".join(quals) + " *)")
-    ot = enum_members(t, "ObjectType", str_const)
-    w("Definition OBJECT_TYPES : list (list N * list N) := " + coq_list(f"({coq_bytes(n)}, {coq_bytes(v)})" for n, v in ot) + ".")
-    eot = enum_members(t, "ExtendedObjectType", str_const)
-    w("Definition EXTENDED_OBJECT_TYPES : list (list N * list N) := " + coq_list(f"({coq_bytes(n)}, {coq_bytes(v)})" for n, v in eot) + ".")
-    # qualifier print order: the attrs field order of QualifiedSWHID after object_id
-    swhids = importlib.import_module("swh.model.swhids")
-    import attr
-    qf = [a.name for a in attr.fields(swhids.QualifiedSWHID)]
-    order = [n for n in qf if n in quals]
-    w("Definition QUALIFIER_PRINT_ORDER : list (list N) := " + coq_list(coq_bytes(a) for a in order) + ".  (* " + " ".join(order) + " *)")
-    w("")
-    # ---- model.py: duplicate-repair precedence ("rev", "dir", "file") in from_possibly_duplicated_entries
-    f = find_func(tm, "from_possibly_duplicated_entries", cls="Directory")
-    prec = None
-    for st in ast.walk(f):
-        if isinstance(st, ast.Assign) and isinstance(st.targets[0], ast.Name) and st.targets[0].id == "dir_entry_types":
-            prec = str_collection(st.value, "dir_entry_types")
-    if prec is None:
-        raise Fail("entry type precedence tuple not found in from_possibly_duplicated_entries")
-    w("(* swh/model/model.py: Directory.from_possibly_duplicated_entries precedence *)")
-    w("Definition DEDUP_PRECEDENCE : list (list N) := " + coq_list(coq_bytes(a) for a in prec) + ".  (* " + " ".join(prec) + " *)")
-    w("")
-    # ---- model.py: attrs schemas of every model class
-    w("(* attrs field tables: (name, eq, hash-participates, has-default, has-converter) per class *)")
-    classes = []
-    for name in dir(model):
-        obj = getattr(model, name)
-        if isinstance(obj, type) and attr.has(obj) and obj.__module__ == "swh.model.model":
-            classes.append(obj)
-    classes.sort(key=lambda c: c.__name__)
-    for c in classes + [swhids.CoreSWHID, swhids.ExtendedSWHID, swhids.QualifiedSWHID]:
-        rows = []
-        for a in attr.fields(c):
-            eq = bool(a.eq)
-            hs = eq if a.hash is None else bool(a.hash)
-            rows.append(f"({coq_bytes(a.name)}, {str(eq).lower()}, {str(hs).lower()}, "
-                        f"{str(a.default is not attr.NOTHING).lower()}, {str(a.converter is not None).lower()})")
-        w(f"Definition FIELDS_{c.__name__} : list (list N * bool * bool * bool * bool) := " + coq_list(rows) + ".")
-        w(f"(* {c.__name__}: " + " ".join(a.name for a in attr.fields(c)) + " *)")
-    w("Definition MODEL_CLASSES : list (list N * list (list N * bool * bool * bool * bool)) := " +
-      coq_list(f"({coq_bytes(c.__name__)}, FIELDS_{c.__name__})" for c in classes) + ".")
-    return "\n".join(L) + "\n"
+    def g_swhids(w):
+        sw = mod("swh.model.swhids")
+        w("(* swh/model/swhids.py *)")
+        if not isinstance(sw.SWHID_NAMESPACE, str) or not isinstance(sw.SWHID_SEP, str) or not isinstance(sw.SWHID_CTXT_SEP, str):
+            raise Fail("SWHID_NAMESPACE / SWHID_SEP / SWHID_CTXT_SEP are not str")
+        w(f"Definition SWHID_NAMESPACE : list N := {coq_bytes(sw.SWHID_NAMESPACE)}.")
+        w(f"Definition SWHID_VERSION : Z := {int_value(sw.SWHID_VERSION, 'SWHID_VERSION')}%Z.")
+        types = str_list_value(sw.SWHID_TYPES, "SWHID_TYPES")
+        ext_types = str_list_value(sw.EXTENDED_SWHID_TYPES, "EXTENDED_SWHID_TYPES")
+        w("Definition SWHID_TYPES : list (list N) := " + coq_list(coq_bytes(a) for a in types) + ".  (* " + " ".join(types) + " *)")
+        w("Definition EXTENDED_SWHID_TYPES : list (list N) := " + coq_list(coq_bytes(a) for a in ext_types) + ".  (* " + " ".join(ext_types) + " *)")
+        w(f"Definition SWHID_SEP : list N := {coq_bytes(sw.SWHID_SEP)}.")
+        w(f"Definition SWHID_CTXT_SEP : list N := {coq_bytes(sw.SWHID_CTXT_SEP)}.")
+        quals = sorted(str_list_value(sw.SWHID_QUALIFIERS, "SWHID_QUALIFIERS"))
+        w("Definition SWHID_QUALIFIERS : list (list N) := " + coq_list(coq_bytes(a) for a in quals) + ".  (* " + " ".join(quals) + " *)")
+        ot = str_enum(sw.ObjectType, "ObjectType")
+        w("Definition OBJECT_TYPES : list (list N * list N) := " + coq_list(f"({coq_bytes(n)}, {coq_bytes(v)})" for n, v in ot) + ".")
+        eot = str_enum(sw.ExtendedObjectType, "ExtendedObjectType")
+        w("Definition EXTENDED_OBJECT_TYPES : list (list N * list N) := " + coq_list(f"({coq_bytes(n)}, {coq_bytes(v)})" for n, v in eot) + ".")
+        # qualifier print order: the attrs field order of QualifiedSWHID
+        qf = [a.name for a in attr.fields(sw.QualifiedSWHID)]
+        order = [n for n in qf if n in quals]
+        w("Definition QUALIFIER_PRINT_ORDER : list (list N) := " + coq_list(coq_bytes(a) for a in order) + ".  (* " + " ".join(order) + " *)")
+        w("")
+    group(["SWHID_NAMESPACE", "SWHID_VERSION", "SWHID_TYPES", "EXTENDED_SWHID_TYPES", "SWHID_SEP", "SWHID_CTXT_SEP",
+           "SWHID_QUALIFIERS", "OBJECT_TYPES", "EXTENDED_OBJECT_TYPES", "QUALIFIER_PRINT_ORDER"], g_swhids)
+
+    # ---- model.py: duplicate-repair precedence in from_possibly_duplicated_entries
+    def g_dedup(w):
+        tm = parse("swh/model/model.py")
+        f = find_func(tm, "from_possibly_duplicated_entries", cls="Directory")
+        prec = None
+        for v in literal_str_seqs(f):          # only literals inside the function: its own precedence order
+            if sorted(v) == ["dir", "file", "rev"]:
+                prec = v
+                break
+        if prec is None:
+            raise Fail("entry type precedence sequence not found in from_possibly_duplicated_entries")
+        w("(* swh/model/model.py: Directory.from_possibly_duplicated_entries precedence *)")
+        w("Definition DEDUP_PRECEDENCE : list (list N) := " + coq_list(coq_bytes(a) for a in prec) + ".  (* " + " ".join(prec) + " *)")
+        w("")
+    group(["DEDUP_PRECEDENCE"], g_dedup)
+
+    # ---- attrs schemas of every model class
+    def g_fields(w):
+        m = mod("swh.model.model")
+        sw = mod("swh.model.swhids")
+        w("(* attrs field tables: (name, eq, hash-participates, has-default, has-converter) per class *)")
+        classes = []
+        for name in dir(m):
+            obj = getattr(m, name)
+            if isinstance(obj, type) and attr.has(obj) and obj.__module__ == "swh.model.model":
+                classes.append(obj)
+        classes.sort(key=lambda c: c.__name__)
+        for c in classes + [sw.CoreSWHID, sw.ExtendedSWHID, sw.QualifiedSWHID]:
+            rows = []
+            for a in attr.fields(c):
+                eq = bool(a.eq)
+                hs = eq if a.hash is None else bool(a.hash)
+                rows.append(f"({coq_bytes(a.name)}, {str(eq).lower()}, {str(hs).lower()}, "
+                            f"{str(a.default is not attr.NOTHING).lower()}, {str(a.converter is not None).lower()})")
+            w(f"Definition FIELDS_{c.__name__} : list (list N * bool * bool * bool * bool) := " + coq_list(rows) + ".")
+            w(f"(* {c.__name__}: " + " ".join(a.name for a in attr.fields(c)) + " *)")
+        w("Definition MODEL_CLASSES : list (list N * list (list N * bool * bool * bool * bool)) := " +
+          coq_list(f"({coq_bytes(c.__name__)}, FIELDS_{c.__name__})" for c in classes) + ".")
+    group(["FIELDS_*", "MODEL_CLASSES"], g_fields)
+    return "\n".join(L) + "\n", missing
 
 
 def main():
+    import json
     try:
-        text = emit()
-    except Fail as e:
-        print("gen_tables: FAIL:", e)
-        return 2
-    except Exception as e:  # fail closed on anything unexpected
+        text, missing = emit()
+    except Exception as e:  # nothing could be generated at all
         import traceback
         traceback.print_exc()
         print("gen_tables: FAIL (unexpected):", repr(e))
@@ -285,6 +381,9 @@ def main():
         print("gen_tables: Generated.v rewritten")
     else:
         print("gen_tables: Generated.v unchanged")
+    json.dump(missing, open(OUT[:-2] + ".missing.json", "w"), indent=1)
+    for k, v in missing.items():
+        print("gen_tables: NOT GENERATED:", k, "-", v)
     return 0
 
 
